@@ -456,6 +456,16 @@ def rule_id_helper(ctx):
         if 'untagged' in item_attrs(it, 'serde'):
             helper_enum = it
     if helper_enum is None:
+        # the shape may live elsewhere in the crate: take the enum that deserialize_id actually deserializes
+        did = ctx.fn('client', 'graphql_client::serde_with::deserialize_id')
+        for n in (H.calls_in(did) if did is not None else []):
+            if any(pth.endswith(('Deserialize>::deserialize', 'Deserialize::deserialize')) for pth in H.callee_paths(n)):
+                txt_ = ((n.get('callee') or {}).get('resolved') or '') + ' ' + ((n.get('callee') or {}).get('gargs') or '')
+                for m_ in re.finditer(r'graphql_client::(?:\w+::)*(\w+)', txt_):
+                    it_ = c.ast_item(m_.group(1), 'enum')
+                    if it_ is not None:
+                        helper_enum = it_
+    if helper_enum is None:
         return [bad('ID-HELPER', 'floor', 'anchor-missing: no untagged helper enum in graphql_client::serde_with')]
     loc = helper_enum['loc']
     kinds = {}
@@ -473,7 +483,7 @@ def rule_id_helper(ctx):
     ca = {k for k in item_attrs(helper_enum, 'serde') if k != '__present__'}
     if ca != {'untagged'}:
         obs.append(bad('ID-HELPER', 'enum/attrs', 'container attributes %s' % sorted(ca), loc, ''))
-    ename = 'graphql_client::serde_with::' + helper_enum['name']
+    ename = 'graphql_client::' + (helper_enum['module'] + '::' if helper_enum.get('module') else '') + helper_enum['name']
     # conversion: Int(n) -> n.to_string(), Str(s) -> s
     conv = [fn for fn in c.all_fns() if 'From<' + ename in (fn.d.get('impl_trait') or '') or ('std::convert::From<%s>' % ename) in norm_path(fn.path)]
     # any function of the crate taking exactly the helper enum and returning String (a From impl, an inherent method, a free fn)
